@@ -119,6 +119,7 @@ func init() {
 	register(&PropertySpec{
 		ID: "C20",
 		Rules: []RuleSpec{
+			{"tx-record-complete", "every writer of transaction records stores the execution result with the transaction, because native Ledger.getTransactionVMState reads it from there: a node that stored blocks without executing them answers like a node that did", ruleTxRecordComplete},
 			{"err-discipline", "no error returned by a function of the module is discarded (called as a statement or assigned to _) in state sync and the block queue, except at the tabled sites whose reason is recorded: a dropped error is a dropped check or a lost write", func(c *Ctx) { ruleErrDiscipline(c, "pkg/core/statesync", "pkg/network/bqueue") }},
 			{"absent-is-nil", "a lookup that returns nil for a missing key and may return a stored empty value (dao.GetStorageItem, BoltDB bucket Get) is never tested for absence by length", func(c *Ctx) { ruleAbsentIsNil(c, "pkg/core/statesync", "pkg/network/bqueue") }},
 			{"unsigned-window", "an ordering comparison one operand of which is the difference of two non-constant unsigned values (a height minus a window) is made only where the function tests the order of those two values: otherwise the difference wraps around and \"older than the retained window\" holds for every height of a short chain", func(c *Ctx) { ruleUnsignedWindow(c, "pkg/core/statesync", "pkg/network/bqueue") }},
@@ -340,6 +341,7 @@ func init() {
 	register(&PropertySpec{
 		ID: "C11",
 		Rules: []RuleSpec{
+			{"rollback-rc", "the working trie is moved back to an earlier root only where node records are rewound too or the ledger refuses the reset in every reference-counting mode: records left as they are describe the abandoned top state", ruleRollbackRC},
 			{"err-discipline", "no error returned by a function of the module is discarded (called as a statement or assigned to _) in the trie and state-root packages, except at the tabled sites whose reason is recorded: a dropped error is a dropped check or a lost write", func(c *Ctx) { ruleErrDiscipline(c, "pkg/core/mpt", "pkg/core/stateroot") }},
 			{"absent-is-nil", "a lookup that returns nil for a missing key and may return a stored empty value (dao.GetStorageItem, BoltDB bucket Get) is never tested for absence by length", func(c *Ctx) { ruleAbsentIsNil(c, "pkg/core/mpt", "pkg/core/stateroot") }},
 			{"unsigned-window", "an ordering comparison one operand of which is the difference of two non-constant unsigned values (a height minus a window) is made only where the function tests the order of those two values: otherwise the difference wraps around and \"older than the retained window\" holds for every height of a short chain", func(c *Ctx) { ruleUnsignedWindow(c, "pkg/core/mpt", "pkg/core/stateroot") }},
